@@ -753,6 +753,37 @@ def _natural_density_relations(ctx, case, base, wla, keys):
                  s_res, want, 'natural_density.is_density')
 
 
+def _zero_count(ctx, case, f0, rho, wla, base, keys):
+    import periodictable as pt
+    from ..atoms import lookup
+    rng = ctx.rng
+    uni = _state['uni']
+    present = set((Z, A) for Z, A, _q in keys)
+    # carbon and hydrogen come first in Hill order (dict initialisers are Hill-sorted), then alphabetical symbols
+    for cand in ((6, 0, 0), (1, 0, 0), (1, 2, 0), (13, 0, 0), (47, 0, 0), (5, 0, 0)):
+        if (cand[0], cand[1]) not in present:
+            break
+    else:
+        return
+    zero_atom = lookup(pt.elements, cand)
+    f = f0 if hasattr(f0, 'structure') else pt.formula(f0)
+    structure = list(f.structure)
+    pos = rng.randrange(len(structure)) if structure else 0
+    forms = [('nested structure with (0, %s) at position %d' % (zero_atom, pos),
+              structure[:pos] + [(0, zero_atom)] + structure[pos:]),
+             ('{%s: 0.0, ...} dict' % zero_atom, dict([(zero_atom, 0.0)] + list(f.atoms.items()))),
+             ]
+    if case['base'].get('form') == 'string':
+        text = case['base']['text']
+        if text[:1].isalpha():     # (a leading count would bind to the new atom)
+            forms.append(('string %s0.0 + base text' % zero_atom, '%s0.0%s' % (zero_atom, text)))
+    for label, obj in forms:
+        what = 'zero-count atom: %s' % label
+        got = _flat7(ctx, what, _call(ctx, what, obj, density=rho, wavelength=wla))
+        _compare(ctx, what, got, base, 'zero_count')
+    ctx.count('zero_count.families')
+
+
 def _entry_points(ctx, f0, rho, wla, wl, E, base):
     """nsf.neutron_sld, the package-level periodictable.neutron_sld / neutron_scattering and the (deprecated, still
     documented) Formula.neutron_sld method against the base call of the family, each by wavelength= and by energy=."""
@@ -870,6 +901,10 @@ def _family_body(ctx, case):
     got = _flat7(ctx, 'energy=', _call(ctx, 'energy=', f0, density=rho, energy=E))
     _nonneg(ctx, 'energy=', got)
     _compare(ctx, 'energy=%r vs wavelength=%r' % (float(E), wl), got, base, 'energy')
+
+    # 4a. an atom with count zero, listed BEFORE the others, is not there (the 0 % end of a substitution series, a
+    #     fitted dopant at 0): as a nested structure, as an {atom: count} dict and as a string
+    _zero_count(ctx, case, f0, rho, wla, base, keys)
 
     # 4b. the other documented entry points give the same numbers, by wavelength= and by energy= ------------
     _entry_points(ctx, f0, rho, wla, wl, E, base)
@@ -1092,6 +1127,7 @@ def finish(ctx):
         ctx.require('seen.edep.%d-%d' % (Z, A), 1, 'energy-dependent entry never used in a family')
     ctx.require('families', 3000 if not ctx.thorough() else 40000, 'fewer families than the floor of the tier')
     ctx.require('wavelength.exactly_1.798', 1, 'no family at the thermal reference wavelength 1.798 A exactly')
+    ctx.require('zero_count.families', 1, 'no family with a zero-count atom listed before the others')
     ctx.require('entry_point.families', 1, 'the other documented entry points were never compared with the base call')
 
 
